@@ -75,8 +75,30 @@ func serveCanned(s net.Conn, resp Responder, cert *tls.Certificate) {
 // CannedIdP builds a responder for one realm: discovery document, JWKS, and a token endpoint that answers from a
 // table prepared before the threads start (key: code or refresh token).
 func CannedIdP(base string, tokenAnswers map[string][]byte) Responder {
-	disc := []byte(fmt.Sprintf(`{"issuer":%q,"authorization_endpoint":%q,"token_endpoint":%q,"jwks_uri":%q,"end_session_endpoint":%q}`,
-		base, base+"/auth", base+"/token", base+"/jwks", base+"/logout"))
+	return CannedIdPDoc(base, tokenAnswers, false)
+}
+
+// RichMetadata is the optional provider metadata of the "rich" discovery document: every member is legal, the values
+// are the less common ones (a provider that advertises only what it likes least). The service is configured to use
+// the code flow with PKCE S256 and its own client authentication whatever a provider advertises.
+const RichMetadata = `,"response_types_supported":["code","code id_token"],"response_modes_supported":["query","fragment","form_post"],` +
+	`"grant_types_supported":["authorization_code","refresh_token","urn:ietf:params:oauth:grant-type:device_code"],"subject_types_supported":["pairwise"],` +
+	`"id_token_signing_alg_values_supported":["ES256","RS256","none"],"token_endpoint_auth_methods_supported":["private_key_jwt","none"],` +
+	`"code_challenge_methods_supported":["plain"],"scopes_supported":["openid","offline_access"],"claims_supported":["sub"],` +
+	`"request_parameter_supported":true,"request_uri_parameter_supported":true,"require_request_uri_registration":true,` +
+	`"require_pushed_authorization_requests":false,"backchannel_logout_supported":true,"frontchannel_logout_supported":true,` +
+	`"authorization_response_iss_parameter_supported":true,"tls_client_certificate_bound_access_tokens":true,` +
+	`"userinfo_endpoint":"http://disc2.idp.test/userinfo","revocation_endpoint":"http://disc2.idp.test/revoke","introspection_endpoint":"http://disc2.idp.test/introspect",` +
+	`"registration_endpoint":"http://disc2.idp.test/register","pushed_authorization_request_endpoint":"http://disc2.idp.test/par",` +
+	`"device_authorization_endpoint":"http://disc2.idp.test/device","check_session_iframe":"http://disc2.idp.test/check","service_documentation":"http://disc2.idp.test/doc"`
+
+func CannedIdPDoc(base string, tokenAnswers map[string][]byte, rich bool) Responder {
+	extra := ""
+	if rich {
+		extra = RichMetadata
+	}
+	disc := []byte(fmt.Sprintf(`{"issuer":%q,"authorization_endpoint":%q,"token_endpoint":%q,"jwks_uri":%q,"end_session_endpoint":%q%s}`,
+		base, base+"/auth", base+"/token", base+"/jwks", base+"/logout", extra))
 	jwks := []byte(JWKS(KeyEC, KeyRSA))
 	return func(r *http.Request, body []byte) (int, []byte) {
 		switch {
